@@ -23,7 +23,7 @@ TECHNIQUE = "Lean 4 proof (ordered-field algebra, linear_combination with c^2+s^
 
 
 def generate(rng, tier):
-    n = {"quick": 600, "thorough": 20000, "search": 6000}.get(tier, 600)
+    n = {"quick": 2000, "thorough": 20000, "search": 6000}.get(tier, 600)
     cases = []
     for _ in range(n):
         a, b = pair(rng)
